@@ -243,6 +243,36 @@ def _work(chunk):
                         check_sheet(text, shown, objs, fields, V, P)
                         if len(shown) > 1:
                             acc.count('nontrivial')
+                        if entry == 'print' and ext is not None:
+                            # a dependency list is a task list too; with a link to another plan its rows belong to DIFFERENT plans,
+                            # and each row's own plan decides which of its links are marked (external)
+                            i_ = ext_link[1]
+                            for lname, lst_ in (('predecessors', objs[i_].predecessors), ('successors', objs[i_].successors),
+                                                ('all-of-ext', ext.successors if ext_link[0] == 'p' else ext.predecessors)):
+                                members_ = list(lst_)
+                                if not members_:
+                                    continue
+                                both = objs + [ext]
+                                shown_ = []
+
+                                def rec_(t_, lvl_):
+                                    shown_.append((next(k_ for k_, o_ in enumerate(both) if o_ is t_), lvl_))
+                                    if children_on:
+                                        for c_ in t_.children:
+                                            rec_(c_, lvl_ + 1)
+                                for t_ in members_:
+                                    rec_(t_, 0)
+                                buf4 = io.StringIO()
+                                try:
+                                    with contextlib.redirect_stdout(buf4):
+                                        lst_.print(fields=fields, children=children_on, theme=theme)
+                                except Exception as ex:  # noqa
+                                    V('raised-' + type(ex).__name__, f'{lname}.print: {type(ex).__name__}: {ex}')
+                                    continue
+                                acc.count('evaluations')
+                                acc.count('premise:link-list-sheet')
+                                check_sheet(buf4.getvalue()[:-1], shown_, both, fields,
+                                            lambda c_, m_, lname=lname: acc.violation('C20', f'sheet/{c_}/link-list', f'{lname} of task {i_}: {m_}', case), P)
         # print again after an edit: the sheet is the one of the edited tasks (widths, indentation, cells)
         if ext_link is None and vals[0] is None:
             first = repr(w)
